@@ -539,6 +539,15 @@ func callNeverNil(c *ssa.Call, idx, depth int) bool {
 		return idx == 0
 	}
 
+	// status.Error / status.Errorf return nil only for codes.OK (= 0)
+	if g.Pkg != nil && g.Pkg.Pkg.Path() == "google.golang.org/grpc/status" && (g.Name() == "Error" || g.Name() == "Errorf") && len(c.Call.Args) > 0 {
+		if k, ok := c.Call.Args[0].(*ssa.Const); ok && k.Value != nil && k.Value.Kind() == constant.Int {
+			if v, ok := constant.Int64Val(k.Value); ok && v != 0 {
+				return idx == 0
+			}
+		}
+	}
+
 	body := g
 	if len(body.Blocks) == 0 {
 		if o := g.Origin(); o != nil {
@@ -597,7 +606,7 @@ var synthCache = map[string]ssa.Value{}
 // resolve evaluates v under the path's phi bindings, building synthetic comparison nodes where an
 // operand changes.
 func (e *pathEnv) resolve(v ssa.Value, depth int) ssa.Value {
-	if len(e.bind) == 0 || depth > 8 {
+	if (len(e.bind) == 0 && len(e.facts) == 0) || depth > 8 {
 		return v
 	}
 
@@ -613,6 +622,10 @@ func (e *pathEnv) resolve(v ssa.Value, depth int) ssa.Value {
 	case *ssa.Phi:
 		if b, ok := e.bind[x]; ok {
 			return b
+		}
+
+		if g := e.gatedValue(x); g != nil {
+			return e.resolve(g, depth+1)
 		}
 	case *ssa.BinOp:
 		if !isCmp(x.Op) {
@@ -1426,4 +1439,105 @@ func lowerBound(v ssa.Value) int64 {
 	}
 
 	return eval(v, 0)
+}
+
+// seedEdge gives the facts that hold when execution has just taken the edge pred → succ: what
+// dominates pred (seedEnv) plus the outcome of pred's own test.
+func seedEdge(pred, succ *ssa.BasicBlock) *pathEnv {
+	base := seedEnv(pred)
+	env := &pathEnv{bind: base.bind, facts: map[string]factEntry{}}
+
+	for k, f := range base.facts {
+		env.facts[k] = f
+	}
+
+	if len(pred.Instrs) > 0 {
+		if ifi, ok := pred.Instrs[len(pred.Instrs)-1].(*ssa.If); ok && len(pred.Succs) == 2 && pred.Succs[0] != pred.Succs[1] {
+			taken := pred.Succs[0] == succ
+			key, neg, decided, bx, by := atomOf(ifi.Cond)
+
+			if decided == nil {
+				env.facts[key] = factEntry{taken != neg, bx, by}
+			}
+		}
+	}
+
+	env.mkKey()
+
+	return env
+}
+
+// gatedValue: a join `x := c ? a : b` (written as `a && b`, `if c { x = a }`, …) whose deciding test c
+// has a known outcome on this path has a known value, even if the path did not itself pass through
+// the join (a search that starts after it). Recognised shapes: triangle (the test's block is itself
+// a predecessor of the join) and diamond (both predecessors come straight from the test's block).
+func (e *pathEnv) gatedValue(phi *ssa.Phi) ssa.Value {
+	if len(e.facts) == 0 {
+		return nil
+	}
+
+	j := phi.Block()
+	if j == nil || len(j.Preds) != 2 || len(phi.Edges) != 2 {
+		return nil
+	}
+
+	var test *ssa.BasicBlock
+
+	p0, p1 := j.Preds[0], j.Preds[1]
+
+	switch {
+	case len(p1.Preds) == 1 && p1.Preds[0] == p0 && len(p0.Succs) == 2: // triangle, test in p0
+		test = p0
+	case len(p0.Preds) == 1 && p0.Preds[0] == p1 && len(p1.Succs) == 2: // triangle, test in p1
+		test = p1
+	case len(p0.Preds) == 1 && len(p1.Preds) == 1 && p0.Preds[0] == p1.Preds[0] && len(p0.Preds[0].Succs) == 2: // diamond
+		test = p0.Preds[0]
+	default:
+		return nil
+	}
+
+	if len(test.Instrs) == 0 || test.Succs[0] == test.Succs[1] {
+		return nil
+	}
+
+	ifi, ok := test.Instrs[len(test.Instrs)-1].(*ssa.If)
+	if !ok {
+		return nil
+	}
+
+	key, neg, decided, _, _ := atomOf(ifi.Cond)
+
+	var truth bool
+
+	switch {
+	case decided != nil:
+		truth = *decided
+	default:
+		f, ok := e.facts[key]
+		if !ok {
+			return nil
+		}
+
+		truth = f.truth
+	}
+
+	taken := truth != neg // the If's true edge is taken
+	next := test.Succs[1]
+
+	if taken {
+		next = test.Succs[0]
+	}
+
+	// which predecessor of the join does that edge lead to?
+	for i, pb := range j.Preds {
+		if pb == test && next == j {
+			return phi.Edges[i]
+		}
+
+		if pb == next && pb != test {
+			return phi.Edges[i]
+		}
+	}
+
+	return nil
 }
